@@ -718,7 +718,9 @@ func (ce *callEngine) callNativeFunc(ctx context.Context, m *wasm.ModuleInstance
 		// how the stack is modified, etc.
 		switch op.Kind {
 		case operationKindBuiltinFunctionCheckExitCode:
-			if err := m.FailIfClosed(); err != nil {
+			// Poll the module this call engine was entered through: that is the one the context watcher
+			// (or Module.Close) closes, however many imported functions deep the loop is.
+			if err := ce.f.moduleInstance.FailIfClosed(); err != nil {
 				panic(err)
 			}
 			frame.pc++
